@@ -1,21 +1,23 @@
 // ===== prelude/rt_block_on.rs — tokio::runtime::{Runtime, Builder} as far as `runtime::block_on` uses them (read from tokio 1.x docs:
 // `Runtime::new()` = multi-thread scheduler with the I/O and time drivers enabled; a `Builder` starts with NO driver enabled;
 // timers (`tokio::time::sleep`, which every actor timer and handler-timeout of the tokio spawner rests on) panic without the time driver) =====
-pub struct TokioRuntime { pub time: bool, pub io: bool }
-pub struct RtBuilder { pub time: bool, pub io: bool }
+// `multi`: worker threads run spawned tasks beside the thread that sits in `block_on` (as async-std's and smol's executors do); a
+// current-thread runtime runs them only while the main future is suspended
+pub struct TokioRuntime { pub time: bool, pub io: bool, pub multi: bool }
+pub struct RtBuilder { pub time: bool, pub io: bool, pub multi: bool }
 #[derive(Debug)] pub struct IoError;
 #[verifier::external_body]
-pub fn runtime_new() -> (r: Result<TokioRuntime, IoError>) ensures r is Ok, r->Ok_0.time && r->Ok_0.io { unimplemented!() }
+pub fn runtime_new() -> (r: Result<TokioRuntime, IoError>) ensures r is Ok, r->Ok_0.time && r->Ok_0.io && r->Ok_0.multi { unimplemented!() }
 impl RtBuilder {
-    pub fn new_multi_thread() -> (r: RtBuilder) ensures !r.time && !r.io { RtBuilder { time: false, io: false } }
-    pub fn new_current_thread() -> (r: RtBuilder) ensures !r.time && !r.io { RtBuilder { time: false, io: false } }
+    pub fn new_multi_thread() -> (r: RtBuilder) ensures !r.time && !r.io && r.multi { RtBuilder { time: false, io: false, multi: true } }
+    pub fn new_current_thread() -> (r: RtBuilder) ensures !r.time && !r.io && !r.multi { RtBuilder { time: false, io: false, multi: false } }
     // the real methods take `&mut self` and return `&mut Self`; a chain on a temporary reads the same
-    pub fn enable_all(self) -> (r: RtBuilder) ensures r.time && r.io { RtBuilder { time: true, io: true } }
-    pub fn enable_time(self) -> (r: RtBuilder) ensures r.time && r.io == self.io { RtBuilder { time: true, io: self.io } }
-    pub fn enable_io(self) -> (r: RtBuilder) ensures r.io && r.time == self.time { RtBuilder { time: self.time, io: true } }
+    pub fn enable_all(self) -> (r: RtBuilder) ensures r.time && r.io && r.multi == self.multi { RtBuilder { time: true, io: true, multi: self.multi } }
+    pub fn enable_time(self) -> (r: RtBuilder) ensures r.time && r.io == self.io && r.multi == self.multi { RtBuilder { time: true, io: self.io, multi: self.multi } }
+    pub fn enable_io(self) -> (r: RtBuilder) ensures r.io && r.time == self.time && r.multi == self.multi { RtBuilder { time: self.time, io: true, multi: self.multi } }
     pub fn worker_threads(self, n: usize) -> (r: RtBuilder) ensures r == self { self }
     #[verifier::external_body]
-    pub fn build(self) -> (r: Result<TokioRuntime, IoError>) ensures r is Ok, r->Ok_0.time == self.time && r->Ok_0.io == self.io { unimplemented!() }
+    pub fn build(self) -> (r: Result<TokioRuntime, IoError>) ensures r is Ok, r->Ok_0.time == self.time && r->Ok_0.io == self.io && r->Ok_0.multi == self.multi { unimplemented!() }
 }
 impl TokioRuntime {
     // drives the future to completion on this runtime; everything the future (and the actors it spawns) does with timers needs the time driver
@@ -23,6 +25,7 @@ impl TokioRuntime {
     pub fn block_on<F: VFuture>(&self, future: F, Tracked(w): Tracked<&mut World>) -> (r: F::Output)
         requires future.pre(old(w)),
             self.time,                                                                         // @ob runtime.block-on-runs-with-the-time-driver-the-timers-need C18,C10,C11
+            self.multi,                                                                        // @ob runtime.block-on-leaves-spawned-actors-their-own-threads-as-the-other-runtimes-do C18
         ensures future.done(old(w), final(w), &r)
     { unimplemented!() }
 }
